@@ -111,13 +111,14 @@ ENVIRONMENTS = {
     'C09': 'The workflow cut at each of its 6 step boundaries into two real interpreters with different hash seeds that share only the on-disk state.',
     'C10': 'One server process serving 220 (800) consecutive connections, again under a 128 open-files limit; BFS again under python -O.',
     'C11': 'A subset of the units again under python -O.',
+    'C13': 'The crash points of the two small workloads again as an ordinary user (uid 65534) instead of root.',
     'C14': 'Three workers forked from a process that has used the cipher: IVs, ciphertexts and generated keys pairwise distinct across processes. Contract units again under python -O.',
     'C15': 'Contract units again under python -O.',
     'C16': 'Contract units again under python -O.',
     'C17': 'A subset of the units again under python -O and under the C locale with UTF-8 mode off.',
     'C18': 'A subset of the units again under python -O.',
     'C19': 'DFS units again under python -O and, with relative array paths, in a child interpreter whose working directory at import differs from the one at use.',
-    'C20': 'PickledDict under a relative path with the working directory elsewhere between open and every sync/close; DFS units again under python -O.',
+    'C20': 'PickledDict under a relative path with the working directory elsewhere between open and every sync/close; sync/close under a file-size limit (a call that returns has stored the contents); DFS units again under python -O.',
 }
 
 
